@@ -77,6 +77,8 @@ try:
 finally:
     shutil.rmtree(d, ignore_errors=True)
 rnd = 'r2' if '/wt2-' in wt else ('r3' if '/wt3-' in wt else '')
+if rnd == 'r3' and prop in ('C05', 'C16'):
+    rnd = ''
 out_dir = os.path.join('/verif/seeded', '%s-%s%s' % (prop, rnd, mid))
 if os.path.isdir(out_dir):
     old = json.load(open(os.path.join(out_dir, 'meta.json'))) if os.path.exists(os.path.join(out_dir, 'meta.json')) else {}
